@@ -10,7 +10,7 @@
 (*        ranges that end at / cross a page edge, wrap 2^32, alias modulo 2^32;     *)
 (*  Inv   invoke: program x initial counter x gas (0.., 2^63-1, 2^63, 2^64-1), twice *)
 (*        (resume), then expunge;                                                   *)
-(*  Must  three fixed scripts walking one / two machines through every call's main  *)
+(*  Must  four fixed scripts walking one / two machines through every call's main  *)
 (*        branches (present in both tiers whatever the seed).                       *)
 (* The generator consults the specification only to keep `pages` from allocating    *)
 (* gigabytes in the node under test (requests the spec answers OK for > 8 pages).   *)
@@ -96,6 +96,12 @@ Must == {[tag |-> "must", ops |-> s] : s \in {
   \* two machines: identifiers, isolation between them, reuse of the lowest identifier
   <<B(3), B(4), Pg(1, 16, 2, 2), Pk(1, SrcAt, P16 + 4094, 4), Pe(0, DstAt, P16 + 4094, 4), Pe(1, DstAt, P16 + 4094, 4), Iv(0), Iv(1), Iv(0),
     Ex(0), B(1), Iv(0), Pg(1, 16, 1, 0), Pe(1, DstAt, P16 + 4094, 4), Pe(1, DstAt, P17, 2), Pg(1, 17, 1, 3), Pg(1, 16, 1, 3), Ex(1), Ex(0)>>,
+  \* whole aligned pages poked in (a copy, not a shared page): a later outer store must not reach the inner machine,
+  \* a later inner store (PStore writes inner 17:1) must not reach outer memory; peek returns what was poked
+  <<B(4), Pg(0, 16, 2, 2), Pk(0, P17, P16, 4096), Pk(0, P16, P17, 4096),
+    [call |-> "peek", w |-> <<A(0), A(DstAt), A(P16 + 4), A(8), U64Zero, U64Zero>>, set |-> << <<P17 + 6, <<92, 93>> >> >>],
+    [call |-> "invoke", w |-> <<A(0), A(BufAt), U64Zero, U64Zero, U64Zero, U64Zero>>, set |-> << <<BufAt, A(6)>> >>],
+    Pe(0, DstAt, P17, 8), Pe(0, DstAt, P16 + 4, 8), Ex(0)>>,
   \* a trapping machine panics; a looping one runs out of gas and keeps its counter
   <<B(5), B(2), Iv(1), Iv(0), Iv(0), Ex(0), Ex(1)>>}}
 Cases == Beh \cup Part \cup Inv \cup Must
